@@ -143,6 +143,15 @@ func pcoJudgeParse(c *core.Ctx, k *core.Case, in []byte) {
 		}
 		off += 3 + l
 	}
+	// what was parsed is serialised again: the configuration-protocol octet is 0x80 whatever the
+	// first octet of the input was, followed by exactly the units found
+	var units []pcoUnit
+	for _, u := range p.ProtocolOrContainerList {
+		units = append(units, pcoUnit{u.ProtocolOrContainerID, u.Contents})
+	}
+	if out := p.Marshal(); !bytes.Equal(out, pcoRef(units)) {
+		c.Fail(k, "pco-marshal-after-parse", fmt.Sprintf("Marshal of the list parsed from %s gives %s, 0x80 and the parsed units give %s", hx(in), hx(out), hx(pcoRef(units))))
+	}
 	if len(in)-off >= 3 {
 		// a complete further header was available but not returned
 		l := int(in[off+2])
